@@ -6,6 +6,7 @@ from vlib import *
 LENS_Q = "{0,1,2,3,7,8,9,16,17,255,256,257}"
 LENS_T = "{0,1,2,3,4,5,7,8,9,15,16,17,31,32,33,63,64,65,127,128,129,255,256,257,300}"
 N_OBSERVERS = 24
+N_RELEASES = 9
 ALLOCFAIL = ["new", "unique_new", "from_box", "new_uninit", "new_uninit_slice", "uninit_hdr", "fhi", "thin", "vec", "slice", "str",
              "collect_exact", "collect_inexact", "make_mut"]
 
@@ -13,7 +14,7 @@ ALLOCFAIL = ["new", "unique_new", "from_box", "new_uninit", "new_uninit_slice", 
 def ctor_cfg(tier, ctors):
     return "\n".join(["SPECIFICATION Spec", "CONSTANTS", "  Lens = %s" % (LENS_T if tier == "thorough" else LENS_Q),
                       "  FaultLens = %s" % ("{0,1,2,3,4,5}" if tier == "thorough" else "{0,1,2,3}"),
-                      "  Ctors = %s" % tla_set(ctors), "  NObservers = %d" % N_OBSERVERS,
+                      "  Ctors = %s" % tla_set(ctors), "  NObservers = %d" % N_OBSERVERS, "  NReleases = %d" % N_RELEASES,
                       "INVARIANT Inv", "INVARIANT Export", "CHECK_DEADLOCK FALSE", ""])
 
 
@@ -51,7 +52,7 @@ def ctor_stage(prop, tier, name, ctors, faults):
         c = v["case"]
         key = "ctor:%s:a=%s:k=%s:l1=%s:l2=%s:lo=%s:up=%s:cap=%s:v=%s" % (c["ctor"], c["a"], c["k"], c["l1"], c["l2"], c["lo"], c["up"], c["cap"], v["variant"])
         res["violations"].append({"stage": name, "key": key, "errors": v["errors"], "case": c, "variant": v["variant"]})
-    if faults:
+    if faults and "fhi" in ctors:
         # allocation failure: the process must end through the allocation-error path
         n = 0
         for ct in ALLOCFAIL:
